@@ -118,7 +118,7 @@ def build_flavour(fl):
 
 def build_flavours(fls):
     """Rebuild (cargo fingerprints decide what is stale) the given flavours from /repo's working tree."""
-    fls = list(dict.fromkeys(fls))
+    fls = list(dict.fromkeys(f.partition(":")[0] for f in fls))  # "name:k" (a fraction of the shards) builds as "name"
     ok = True
     # one cargo at a time gets all cores; two in parallel overlap their serial phases
     with cf.ThreadPoolExecutor(max_workers=2) as ex:
